@@ -250,6 +250,11 @@ def minimise(ast, style, table, cause, table_name):
     return best, best_s
 
 
+def _ex_key(e):
+    # examples from the canonical strings of the guide first (stable keys across tiers), then shortest
+    return (e.get("canon", 1), len(e["string"]), e["string"], e["table"])
+
+
 def _run_range(args):
     tier, seed, start, stop = args
     plan = _STATE.get(("plan", tier, seed))
@@ -265,9 +270,11 @@ def _run_range(args):
         g["count"] += 1
         g["tables"][tname] = g["tables"].get(tname, 0) + 1
         ex = g["examples"]
-        if len(ex) < 8 or len(s) < len(ex[-1]["string"]):
-            ex.append(dict(string=s, table=tname, observed=observed, expected=expected, original=orig))
-            ex.sort(key=lambda e: (len(e["string"]), e["string"], e["table"]))
+        e = dict(string=s, table=tname, observed=observed, expected=expected, original=orig,
+                 canon=0 if family == "canonical" else 1)
+        if len(ex) < 8 or _ex_key(e) < _ex_key(ex[-1]):
+            ex.append(e)
+            ex.sort(key=_ex_key)
             del ex[8:]
 
     for i in range(start, stop):
@@ -380,7 +387,7 @@ def _merge(parts):
             t["examples"].extend(g["examples"])
     for g in tot["groups"].values():
         seen, ex = set(), []
-        for e in sorted(g["examples"], key=lambda e: (len(e["string"]), e["string"], e["table"])):
+        for e in sorted(g["examples"], key=_ex_key):
             if e["string"] not in seen:
                 seen.add(e["string"])
                 ex.append(e)
@@ -534,6 +541,12 @@ def task_replay(tier, seed, arg):
     r = check_valid_string(s, m, T)
     if r is None:
         res["notes"].append("accepted with the reference meaning")
+        return res
+    ast_n, changed = neutralise(ast)
+    if changed and check_valid_string(R.render(ast_n), m, T) is None:
+        res["notes"].append("differs from the reference only in how \"(A) 2B\" is read (uncounted "
+                            "parenthesis, white space, count): depends on documented ambiguity (1), not a "
+                            "violation; observed %r" % (r[1],))
         return res
     cause = classify(r[0], r[3], ast, s, {'sep': None})
     res["violations"].append(dict(
